@@ -2,6 +2,7 @@ import CashewsVerif.Driver.Proto
 import CashewsVerif.Model.TxCtx
 import CashewsVerif.Spec.TxSpec
 import CashewsVerif.Spec.TxMatchSpec
+import CashewsVerif.Model.TxGate
 /-
 Driver logic for C03 / C04 (executables: Drivers/C03.lean, Drivers/C04.lean).  One case = an initial store, then a task's events (blocks, commands, explicit
 rollback / commit).  Every event is run on the transaction-context model (`Ctx`, the code's
@@ -21,6 +22,13 @@ behaviour) and every command also on a *direct* copy of the store (`Mem.step`, n
   delmatch <pat>                `delete_match(pat)`   -- pattern commands (Model/TxMatch.lean), inside or outside a block;
   scan <pat>                    `scan(pat)`           -- <pat> travels as `x` + its code points in decimal joined by `.`
   getmatch <pat>                `get_match(pat)`      -- (`x107.42` = "k*", `x` = the empty pattern), as in Drivers/C13.lean
+
+  disable <word>... | enable <word>...   `cache.disable(Command.X, ...)` / `cache.enable(...)` (Model/TxGate.lean) for the commands named
+                                by their protocol words (set setmany get getmany exists incr delete delmany expire getexpire delmatch
+                                scan getmatch), anywhere in a program.  A command that is disabled when it is issued goes nowhere
+                                (`TxSt.stepG` / `Mem.stepG` with the flag set) and is answered with its default: `N` (None) for
+                                set / exists / incr / delete / getexpire, `U` for setmany / delmany / expire / delmatch, `v=-` /
+                                `vs=-,...` (or the caller's default) for get / getmany, `ks=` / `kv=` for scan / getmatch.
 
 Key names (`keyName`): the user keys 0, 2, 4 are "ka", "kb1", "kb2" (other even keys: "u<k>"); the reserved key 1 is
 ":serializable:lock" and the reserved key k + 3 is ":tx_lock:" ++ name of the user key k.
@@ -42,6 +50,7 @@ structure St where
   direct : Mem
   b0     : Mem            -- backend when the current segment started
   acc    : List Op        -- commands of the current segment
+  dis    : List String := []   -- protocol words of the commands that are disabled (`cache.disable`)
 
 def parseKv? (s : String) : Option (Nat × Val) :=
   match s.splitOn "=" with
@@ -104,6 +113,20 @@ def showCOut : COut → String
     let sorted := kvs.foldr insertPair []
     "kv=" ++ ";".intercalate (sorted.map fun kv => s!"{kv.1}={showOptVal kv.2}")
       ++ (if (kvs.map (·.1)).eraseDups.length = kvs.length then "" else ";?dup")
+
+/-- the protocol words a `disable` / `enable` line may name -/
+def cmdWords : List String :=
+  ["set", "setmany", "get", "getmany", "exists", "incr", "delete", "delmany", "expire", "getexpire", "delmatch", "scan", "getmatch"]
+
+/-- what the middleware hands back for a disabled command (reads without a caller default) -/
+def disabledAnswer (ws : List String) : String :=
+  match ws with
+  | "get" :: _ => "v=-"
+  | "getmany" :: ks => "vs=" ++ ",".intercalate (ks.map fun _ => "-")
+  | "scan" :: _ => "ks="
+  | "getmatch" :: _ => "kv="
+  | w :: _ => if w = "setmany" || w = "delmany" || w = "expire" || w = "delmatch" then "U" else "N"
+  | [] => "N"
 
 def parseMode? (s : String) : Option TxMode :=
   if s = "fast" then some .fast else if s = "locked" then some .locked
@@ -196,10 +219,26 @@ def step (s : St) (line : String) : St × String :=
     let (c', o) := s.ctx.step .commit
     let (s2, n) := closeSeg { s with ctx := c' }
     ({ s2 with direct := s2.ctx.st.b }, s!"tx={showOut o} {n} " ++ views s2)
+  | "disable" :: ws =>
+    if ws.all cmdWords.contains then
+      let s' := { s with dis := (s.dis ++ ws).eraseDups }
+      (s', "ok " ++ views s')
+    else (s, "bad-op")
+  | "enable" :: ws =>
+    if ws.all cmdWords.contains then
+      let s' := { s with dis := s.dis.filter fun w => !ws.contains w }
+      (s', "ok " ++ views s')
+    else (s, "bad-op")
   | ws =>
     match parseCmd? ws with
     | none => (s, "bad-op")
     | some cmd =>
+      if s.dis.contains (ws.headD "") then
+        -- disabled when issued: `TxSt.stepG` / `Mem.stepG` with the flag set - nothing changes, the default comes back
+        let c' := if s.ctx.inTx then { s.ctx with st := (s.ctx.st.stepG keyName (cmd, true)).1 } else s.ctx
+        let s' := { s with ctx := c', direct := (s.direct.stepG keyName (cmd, true)).1 }
+        (s', s!"tx={disabledAnswer ws} direct={disabledAnswer ws} " ++ views s')
+      else
       -- a regular command `.op o` is `Ctx.step (.cmd o)` / `Mem.step o` (`Ctx.stepC`, `Mem.stepC` route it there)
       let (c', o) := s.ctx.stepC keyName cmd
       let (d', o') := s.direct.stepC keyName cmd
